@@ -75,6 +75,10 @@ CHECKS = {
                 text="All length/bit/block counters are symbolic full-width words in the update and finalisation value graphs of the four hash families: BLAKE's double-word bit counter with carry, Skein's byte tweak, Groestl's block counter and final count, JH's byte length and 64-bit bit-length field - so exactness holds across every word boundary, not just the sampled ones. Plus a def-use taint rule: no narrowing integer cast on a slice length or counter field anywhere in the hash crates, and 64-bit counter field types.",
                 note="Per-block functions are uninterpreted here (C04-C07 decide them for symbolic counters). Format limits (counter overflow beyond 2^64 etc.) are outside the domain.",
                 technique="value-graph normalisation with symbolic counters + MIR def-use taint (narrowing casts)"),
+    "C03": dict(level="other", design="3/C03",
+                text="Value level: ChaCha refill/refill4, the BLAKE-256/512 compression dispatcher and JH f8 are evaluated THROUGH their dispatchers on symbolic inputs in every build configuration - std run-time dispatch with all arms joined over free CPU-detection symbols, no_simd portable, and (thorough) five no-std builds with compile-time features sse2..avx2 - and must equal the one reference definition, hence each other; no arm may contain an operand-dependent panic. Structure: feature adequacy of all 39 run-time arms (required <= enabled <= implied by dominating detection), one fn_impl body per site with positional forwarding, Machine::instance() only in arms and only via unsafe (compile_fail witness).",
+                note="Vocabulary-level equality per backend is C12/C13. SSE4.1 and AVX machines are the same types. Groestl's private dispatcher is not a ppv-lite86 backend and is not covered here. Big-endian cfg twins are not compiled on this target.",
+                technique="value graphs through dispatchers in 7 configurations + target-feature dataflow over the mono call graph with dominators"),
 }
 
 REASONS = {}
